@@ -86,6 +86,7 @@ proof fn lemma_trk_start(h: LineHdr, v: u16, prev: WRow, limit: int, s0: Seq<Lin
     reveal(wl_trk);
     assert(wl_pushed(v, s0, s0) =~= Seq::<LineOp>::empty());
     lemma_wl_at_start(h, prev, limit);
+    lemma_ops_wf_empty(h);
 }
 proof fn lemma_trk_shape(v: u16, s0: Seq<LineInstruction>, s: Seq<LineInstruction>, i: LineInstruction)
     requires s0.len() <= s.len(), s.take(s0.len() as int) =~= s0
@@ -164,6 +165,7 @@ proof fn lemma_trk_const_add_pc(h: LineHdr, v: u16, prev: WRow, s0: Seq<LineInst
         wl_trk(h, v, prev, row.address_offset, s0, s.push(LineInstruction::ConstAddPc), wl_mid(h, w)),
         wl_row_wf(h, wl_mid(h, w)), wl_ordered(wl_mid(h, w), row),
         wl_op_advance(h, wl_mid(h, w), row) == wl_op_advance(h, w, row) - wl_const_add_pc_advance(h),
+        wl_mid(h, w) == (WRow { address_offset: wl_mid(h, w).address_offset, op_index: wl_mid(h, w).op_index, ..w }),
 {
     lemma_wl_mid(h, w, row);
     assert forall|base: int| wl_cond(h, base, prev, row.address_offset) implies #[trigger] line_step(h, wl_regs(base, w), wl_op(v, LineInstruction::ConstAddPc))
@@ -383,7 +385,8 @@ def program_contracts(im, findings):
         'valid_line_hdr(self.lh())', 'wl_row_wf(self.lh(), self.prev())', 'wl_row_wf(self.lh(), self.cur())',
         '[C13:pre-ordered] wl_ordered(self.prev(), self.cur())'] + STRICT_ADV,
         ensures=['[C13:op-advance] res as int == wl_op_advance(self.lh(), self.prev(), self.cur())'], canary=True,
-        before=[('address_advance * u64::from(', 'proof { let h = self.lh(); lemma_wl_advance_lands(h, 0, self.prev(), self.cur(), wl_regs(0, self.prev())); '
+        before=[('let mut address_advance =', 'proof { reveal(wl_aligned); }'),
+                ('address_advance * u64::from(', 'proof { reveal(wl_op_advance); let h = self.lh(); lemma_wl_advance_lands(h, 0, self.prev(), self.cur(), wl_regs(0, self.prev())); '
                  'let diff = self.row.address_offset as int - self.prev_row.address_offset as int; assert(diff / 1 == diff); }')])
 
     # ---- begin_sequence / set_address: DW_LNE_set_address
@@ -422,7 +425,7 @@ def program_contracts(im, findings):
         # "Only the address_offset and op_index fields of the current row are used": they must describe a position at or
         # after the previous row, on an instruction boundary
         '[C13:pre-ordered] wl_ordered(old(self).prev(), WRow { address_offset: address_offset as int, ..old(self).cur() })',
-        f'[C13:pre-aligned] address_offset as int % {H}.min_inst_len == 0', f'[C13:pre-row] wl_row_wf({H}, old(self).cur())',
+        f'[C13:pre-aligned] wl_aligned({H}, address_offset as int)', f'[C13:pre-row] wl_row_wf({H}, old(self).cur())',
     ] + STRICT_END, ensures=FRAME + [
         '!final(self).in_seq()', 'final(self).wf()',
         f'[C13:end-sequence] forall|base: int| wl_ends({H}, base, old(self).prev(), address_offset as int, old(self).cur().op_index, {PUSHED})',
@@ -436,11 +439,12 @@ def program_contracts(im, findings):
         (a_adv, 'let ghost sn1 = self.instructions@;'),
         ('self.instructions.push(LineInstruction::EndSequence);', 'let ghost sn2 = self.instructions@;'),
     ], after=[
+        ('let op_advance = self.op_advance();', 'proof { lemma_wl_op_advance_cong(h, prev, self.cur(), prev, tgt); }'),
         (a_adv, 'proof { assert forall|base: int| wl_cond(h, base, prev, lim) implies #[trigger] line_step(h, wl_regs(base, prev), wl_op(v, LineInstruction::AdvancePc(op_advance))) '
                 '== (LineStep { err: false, row: None, next: wl_regs(base, tgt) }) by { lemma_wl_step_advance_pc(h, base, prev, tgt); } '
                 'lemma_trk_push(h, v, prev, lim, s0, sn1, prev, LineInstruction::AdvancePc(op_advance), tgt); wc = tgt; }'),
         ('self.instructions.push(LineInstruction::EndSequence);',
-         'proof { lemma_wl_advance_lands(h, 0, prev, tgt, wl_regs(0, prev)); assert(wc == tgt); '
+         'proof { lemma_wl_aligned_zero(h); lemma_wl_advance_lands(h, 0, prev, tgt, wl_regs(0, prev)); assert(wc == tgt); '
          'lemma_trk_end(h, v, prev, s0, sn2, wc, LineInstruction::EndSequence, lim, opi); }'),
     ], canary=True)
 
@@ -522,7 +526,11 @@ def program_contracts(im, findings):
     BEFORE_FINAL = ('proof { if kk == 0 { assert(kk * h.line_range == 0) by (nonlinear_arith) requires kk == 0; } '
                     'assert(use_special ==> special as int == 13 + sl + kk * h.line_range); '
                     'assert(!use_special ==> special as int == 13 + sl && sl == -h.line_base); '
-                    'assert(fits ==> kk == wl_op_advance(h, wc, tgt)); assert(wl_rest_done(wc, tgt)); }')
+                    'assert(fits ==> kk == wl_op_advance(h, wc, tgt)); assert(fits ==> wl_rest_done(wc, tgt)); '
+                    'assert(fits ==> wl_row_wf(h, wc) && wl_ordered(wc, tgt)); '
+                    'assert(fits ==> ' + TRK.format(w='wc') + '); '
+                    'assert(fits ==> line_add(wc.line, h.line_base + sl) == tgt.line); '
+                    'assert(!use_special ==> wc.line == tgt.line); }')
     im.splice('generate_row', requires=[
         f'[C13:pre-header] wl_hdr_ok({H})'] + ([] if findings else [f'[C13:pre-line-range-127] {H}.line_range <= 127']) + [
         f'2 <= {H}.version <= 5', 'old(self).wf()',
@@ -541,13 +549,15 @@ def program_contracts(im, findings):
         # the same for ANY pair of u64 line numbers.  FAILS: a difference outside i64 is computed modulo 2^64 (F-wline-2)
         f'[C13:generate-row-any-line][C12:line-regen] forall|base: int| wl_generates({H}, base, old(self).prev(), old(self).cur(), {PUSHED})',
     ] if findings else []),
-        before=[('self.in_sequence = true;', TOP), ('let line_base = i64::from(', CASTS)] + [b for b, _ in ops] + [
+        before=[('self.in_sequence = true;', TOP), ('let line_base = i64::from(', CASTS),
+                ('let op_advance = self.op_advance();', 'proof { lemma_wl_op_advance_cong(h, prev, self.cur(), prev, tgt); }')] + [b for b, _ in ops] + [
             ('if op_advance != 0 {', AFTER_LINE),
             ('let (special_op_advance, const_add_pc) =', NO_OVERFLOW),
             ('let op_range = (255 - special_base) / line_range;', BEFORE_RANGE),
             ('let special_op = special_op_advance * line_range;', BEFORE_SPECIAL_OP),
             ('if use_special && special != special_default {', BEFORE_FINAL)],
-        after=[('let mut use_special = false;', AFTER_DEFAULT)] + [a for _, a in ops],
+        after=[('let op_advance = self.op_advance();', 'proof { lemma_wl_op_advance_cong(h, prev, tgt, w8, tgt); lemma_wl_op_advance_cong(h, prev, tgt, w9, tgt); }'),
+               ('let mut use_special = false;', AFTER_DEFAULT)] + [a for _, a in ops],
         canary=True)
 
 
